@@ -18,18 +18,45 @@ NATIVE_OK = {"C04"}
 # --------------------------------------------------------------------------------------------
 # proof side
 
+# property -> [(Props module, regex selecting the theorems of that module that belong to the property)]
+PROP_MODULES = {
+    "C01": [("C01Prime", r"add_spec|sub_spec|mul_spec|neg_spec|mul_no_overflow|element_spec|fromSigned|beq_iff|repr_unique|isZero_iff|isOne_iff|zero_one_repr|primeOps_lawful|primeLawful|primeOps_ofNat|primeOps_ofInt|primeOps_char_card"),
+            ("C01Bin", r"^(?!.*(pow|inv|bitProd|bitQuoRem|trace)).*$"), ("C01Ext", r".*"), ("C01", r".*")],
+    "C02": [("C01Prime", r"inv_|invLoop|pow|powLoop"), ("C01Bin", r"pow|inv|bitProd|bitQuoRem|trace"), ("C02", r".*")],
+    "C03": [("C03", r".*"), ("C01Prime", r"multGenerator|isGenerator"), ("GenTies", r"DefineConds|ffDefineCases")],
+    "C15": [("C15", r".*"), ("GenTies", r"Pattern|Regex|XOrY|regex|VarName")],
+    "C16": [("C16", r".*"), ("C16Static", r".*")],
+    "C17": [("C17", r".*"), ("GenTies", r"kindNames"), ("C15", r"parse_total")],
+    "C18": [("C18", r".*"), ("C01Prime", r"lookup|computeTables|estimateMemory"), ("GenTies", r"MaxMem|EstimateMemory")],
+}
+
+
 def theorems_of(pid):
-    """obligations = theorems declared in Props/<pid>.lean"""
-    path = os.path.join(LEAN, "Algobra", "Props", pid + ".lean")
-    if not os.path.exists(path):
-        return [], path
-    src = open(path).read()
-    src_nc = re.sub(r"/-.*?-/", "", src, flags=re.S)
-    src_nc = re.sub(r"--.*", "", src_nc)
-    names = re.findall(r"^\s*(?:protected\s+|private\s+)?theorem\s+([^\s:({\[]+)", src_nc, flags=re.M)
-    ns = re.findall(r"^namespace\s+(\S+)", src_nc, flags=re.M)
-    prefix = (ns[0] + ".") if ns else ""
-    return [prefix + n for n in names], path
+    """obligations = theorems declared in the Props modules of the property; returns (names, modules)"""
+    mods = PROP_MODULES.get(pid, [(pid, r".*")])
+    names, used = [], []
+    for mod, pat in mods:
+        path = os.path.join(LEAN, "Algobra", "Props", mod + ".lean")
+        if not os.path.exists(path):
+            continue
+        src = open(path).read()
+        src_nc = re.sub(r"/-.*?-/", "", src, flags=re.S)
+        src_nc = re.sub(r"--.*", "", src_nc)
+        # track namespaces line by line (simple stack)
+        stack = []
+        for line in src_nc.splitlines():
+            m = re.match(r"^namespace\s+(\S+)", line)
+            if m:
+                stack.append(m.group(1)); continue
+            m = re.match(r"^end\s+(\S+)", line)
+            if m and stack and stack[-1].split(".")[-1] == m.group(1).split(".")[-1]:
+                stack.pop(); continue
+            m = re.match(r"^\s*(?:@\[[^\]]*\]\s*)?(?:protected\s+|private\s+)?theorem\s+([^\s:({\[]+)", line)
+            if m and re.search(pat, m.group(1)):
+                full = ".".join(stack + [m.group(1)]) if not m.group(1).startswith("_root_") else m.group(1)[7:]
+                names.append(full)
+        used.append(mod)
+    return names, used
 
 
 FORBIDDEN = re.compile(r"\bsorry\b|\badmit\b|^\s*axiom\s|\bimplemented_by\b|\bunsafe\s|maxHeartbeats\s+0\b|\bbv_decide\b", re.M)
@@ -37,36 +64,50 @@ FORBIDDEN = re.compile(r"\bsorry\b|\badmit\b|^\s*axiom\s|\bimplemented_by\b|\bun
 
 def proof_side(pid, res, tier):
     """build the property module, audit axioms; returns dict for the evidence"""
-    names, path = theorems_of(pid)
-    info = {"obligations": len(names), "discharged": 0, "theorems": names, "axioms": {}, "build_ok": False}
+    names, mods = theorems_of(pid)
+    info = {"obligations": len(names), "discharged": 0, "theorems": names, "axioms": {}, "build_ok": False, "props_modules": mods}
     if not names:
         return info
-    ok, out = lake_build(["Algobra.Props." + pid])
+    ok, out = lake_build(["Algobra.Props." + m for m in mods])
     info["build_ok"] = ok
     if not ok:
         errs = "\n".join(l for l in out.splitlines() if "error" in l.lower())[:3000]
         info["build_errors"] = errs
         return info
-    # forbidden constructs in every file the property module depends on inside this package
+    # forbidden constructs in every file the property module (transitively) imports inside this package
     bad = []
-    for root, _, files in os.walk(os.path.join(LEAN, "Algobra")):
-        for f in files:
-            if f.endswith(".lean") and "/Gen" not in root:
-                txt = open(os.path.join(root, f)).read()
-                txt = re.sub(r"/-.*?-/", "", txt, flags=re.S)
-                txt = re.sub(r"--.*", "", txt)
-                for m in FORBIDDEN.finditer(txt):
-                    bad.append("%s: %s" % (f, m.group(0).strip()))
+    seen, todo = set(), ["Algobra.Props." + m for m in mods]
+    while todo:
+        mod = todo.pop()
+        if mod in seen:
+            continue
+        seen.add(mod)
+        fpath = os.path.join(LEAN, *mod.split(".")) + ".lean"
+        if not os.path.exists(fpath):
+            continue
+        raw = open(fpath).read()
+        todo += re.findall(r"^import\s+(Algobra\.\S+)", raw, flags=re.M)
+        if ".Gen." in mod:
+            continue
+        txt = re.sub(r"/-.*?-/", "", raw, flags=re.S)
+        txt = re.sub(r"--.*", "", txt)
+        txt = re.sub(r'"(?:[^"\\]|\\.)*"', '""', txt)
+        for m in FORBIDDEN.finditer(txt):
+            bad.append("%s: %s" % (mod, m.group(0).strip()))
+        if pid not in NATIVE_OK and re.search(r"\bnative_decide\b", txt):
+            bad.append("%s: native_decide" % mod)
+    info["modules"] = sorted(seen)
     info["forbidden"] = bad
     audit = os.path.join(BUILD, "Audit_%s.lean" % pid)
     with open(audit, "w") as f:
-        f.write("import Algobra.Props.%s\n" % pid)
+        for m in mods:
+            f.write("import Algobra.Props.%s\n" % m)
         for n in names:
             f.write("#print axioms %s\n" % n)
     p = sh(["lake", "env", "lean", audit], cwd=LEAN, check=False, timeout=1800)
     cur = None
     txt = p.stdout
-    for m in re.finditer(r"'([^']+)' (depends on axioms: \[([^\]]*)\]|does not depend on any axioms)", txt.replace("\n", " ")):
+    for m in re.finditer(r"'(\S+)' (depends on axioms: \[([^\]]*)\]|does not depend on any axioms)", txt.replace("\n", " ")):
         ax = [a.strip() for a in (m.group(3) or "").split(",") if a.strip()]
         info["axioms"][m.group(1)] = ax
     for n in names:
@@ -81,7 +122,7 @@ def proof_side(pid, res, tier):
         else:
             info.setdefault("bad_axioms", {})[n] = sorted(extra)
     if tier == "thorough":
-        p = sh(["lake", "env", "leanchecker", "Algobra.Props." + pid], cwd=LEAN, check=False, timeout=3600)
+        p = sh(["lake", "env", "leanchecker"] + ["Algobra.Props." + m for m in mods], cwd=LEAN, check=False, timeout=3600)
         info["leanchecker_rc"] = p.returncode
         if p.returncode != 0:
             info["leanchecker_out"] = p.stdout[-1500:]
@@ -326,7 +367,7 @@ def main():
         if not pinfo["build_ok"] or missing or badax or pinfo.get("forbidden") or pinfo.get("leanchecker_rc", 0) != 0:
             txt = "property: %s\nkind: broken proof obligation\n" % pid
             if not pinfo["build_ok"]:
-                txt += "lake build Algobra.Props.%s failed:\n%s\n" % (pid, pinfo.get("build_errors", ""))
+                txt += "lake build of %s failed:\n%s\n" % (pinfo.get("props_modules"), pinfo.get("build_errors", ""))
             if missing:
                 txt += "theorems without axiom report: %s\n" % missing
             if badax:
@@ -344,8 +385,9 @@ def main():
     coverage = dict(cov)
     coverage.update({
         "obligations": max(1, pinfo["obligations"]), "discharged": pinfo["discharged"],
-        "checker_cmd": "cd /verif/lean && lake build Algobra.Props.%s && lake env lean ../build/Audit_%s.lean%s" % (
-            pid, pid, " && lake env leanchecker Algobra.Props.%s" % pid if tier == "thorough" else ""),
+        "checker_cmd": "cd /verif/lean && lake build %s && lake env lean ../build/Audit_%s.lean%s" % (
+            " ".join("Algobra.Props." + m for m in pinfo.get("props_modules", [pid])), pid,
+            " && lake env leanchecker <those modules>" if tier == "thorough" else ""),
         "trusted_base": ["Lean 4.33.0 kernel", "axioms used by the theorems of Props/%s.lean: %s" % (pid, axioms_used or "none"),
                          "extractor /verif/extract (regenerates Gen/*.lean from /repo)",
                          "correspondence harness /verif/harness + driver + tools/*.py (differential testing, sampled)",
